@@ -795,7 +795,9 @@ class Scope:
         for k, v in val.items():
           put(target[key], k, v)
       else:
-        target[key] = val
+        # store a copy of (nested) dicts: later writes are merged into the
+        # stored dict in place and must not reach the caller's object.
+        target[key] = _copy_dicts(val)
 
     put(variables, name, value)
 
@@ -993,6 +995,13 @@ class Scope:
     if key not in self.flags and default is no_flag:
       return ValueError(f'Flag {key} not present on scope.')
     return self.flags.get(key, default)
+
+
+def _copy_dicts(x):
+  """Copies the (nested) plain dicts of ``x``; leaves are shared."""
+  if type(x) is dict:
+    return {k: _copy_dicts(v) for k, v in x.items()}
+  return x
 
 
 def _unfreeze_variables(variables, mutable):
